@@ -637,6 +637,14 @@ class Flow:
                 return [(st, ("suppress", tuple(ast.unparse(a) for a in node.args)))]
             if name == "Pair":
                 return self.with_args(st, node, self.make_pair)
+            if name in ("max", "min"):
+                def pick(s, a, kw):  # noqa: ANN001, ANN202
+                    vals = [self.deref(s, x) for x in a]
+                    if vals and all((isinstance(v, tuple) and v and v[0] == "find") or (isinstance(v, Opq) and (v.src == "find" or getattr(v, "findpos", False))) for v in vals):
+                        return [(s, Opq("find"))]  # the smaller/larger of two search results is a search result
+                    return [(s, Opq(ast.unparse(node)[:40]))]
+
+                return self.with_args(st, node, pick)
             if name in ("str", "repr", "int", "bool", "max", "min", "range", "zip", "sorted", "any", "all", "print", "tuple", "type"):
                 return self.with_args(st, node, lambda s, a, kw: [(s, Opq(ast.unparse(node)[:40]))])
             if name in ("ValueError", "IndexError", "RuntimeError", "KeyError", "TypeError", "AssertionError", "Exception"):
